@@ -21,6 +21,6 @@ for name in names:
         print(name, 'PATCH DOES NOT APPLY to current HEAD')
         subprocess.run('git -C /repo worktree remove --force %s' % wt, shell=True)
         continue
-    checks = extra[0] if extra else sorted(set([meta['property']] + list(meta.get('checks', {}))))
+    checks = extra[0] if extra else [meta['property']] if '--own' in sys.argv else sorted(set([meta['property']] + list(meta.get('checks', {}))))
     subprocess.run([os.path.join(VERIF, 'tools', 'try_seeded.py'), name, wt, meta['property']] + checks, cwd=VERIF)
     subprocess.run('git -C /repo worktree remove --force %s' % wt, shell=True)
